@@ -4,6 +4,9 @@ Base/Prelude.vos Base/Prelude.vok Base/Prelude.required_vos: Base/Prelude.v
 Base/Wrap.vo Base/Wrap.glob Base/Wrap.v.beautified Base/Wrap.required_vo: Base/Wrap.v 
 Base/Wrap.vio: Base/Wrap.v 
 Base/Wrap.vos Base/Wrap.vok Base/Wrap.required_vos: Base/Wrap.v 
+Base/Bytes.vo Base/Bytes.glob Base/Bytes.v.beautified Base/Bytes.required_vo: Base/Bytes.v Base/Prelude.vo
+Base/Bytes.vio: Base/Bytes.v Base/Prelude.vio
+Base/Bytes.vos Base/Bytes.vok Base/Bytes.required_vos: Base/Bytes.v Base/Prelude.vos
 Gen/JumpGen.vo Gen/JumpGen.glob Gen/JumpGen.v.beautified Gen/JumpGen.required_vo: Gen/JumpGen.v Base/Wrap.vo
 Gen/JumpGen.vio: Gen/JumpGen.v Base/Wrap.vio
 Gen/JumpGen.vos Gen/JumpGen.vok Gen/JumpGen.required_vos: Gen/JumpGen.v Base/Wrap.vos
@@ -19,6 +22,12 @@ Model/Hash.vos Model/Hash.vok Model/Hash.required_vos: Model/Hash.v Base/Prelude
 Model/Strategy.vo Model/Strategy.glob Model/Strategy.v.beautified Model/Strategy.required_vo: Model/Strategy.v Base/Prelude.vo Base/Wrap.vo Model/Hash.vo
 Model/Strategy.vio: Model/Strategy.v Base/Prelude.vio Base/Wrap.vio Model/Hash.vio
 Model/Strategy.vos Model/Strategy.vok Model/Strategy.required_vos: Model/Strategy.v Base/Prelude.vos Base/Wrap.vos Model/Hash.vos
+Model/ClientIP.vo Model/ClientIP.glob Model/ClientIP.v.beautified Model/ClientIP.required_vo: Model/ClientIP.v Base/Prelude.vo Base/Bytes.vo Model/Hash.vo Model/Strategy.vo
+Model/ClientIP.vio: Model/ClientIP.v Base/Prelude.vio Base/Bytes.vio Model/Hash.vio Model/Strategy.vio
+Model/ClientIP.vos Model/ClientIP.vok Model/ClientIP.required_vos: Model/ClientIP.v Base/Prelude.vos Base/Bytes.vos Model/Hash.vos Model/Strategy.vos
+Model/LB.vo Model/LB.glob Model/LB.v.beautified Model/LB.required_vo: Model/LB.v Base/Prelude.vo Base/Wrap.vo Base/Bytes.vo Model/Hash.vo Model/Strategy.vo Model/ClientIP.vo Model/Limiter.vo Model/Breaker.vo
+Model/LB.vio: Model/LB.v Base/Prelude.vio Base/Wrap.vio Base/Bytes.vio Model/Hash.vio Model/Strategy.vio Model/ClientIP.vio Model/Limiter.vio Model/Breaker.vio
+Model/LB.vos Model/LB.vok Model/LB.required_vos: Model/LB.v Base/Prelude.vos Base/Wrap.vos Base/Bytes.vos Model/Hash.vos Model/Strategy.vos Model/ClientIP.vos Model/Limiter.vos Model/Breaker.vos
 Proofs/LimiterProofs.vo Proofs/LimiterProofs.glob Proofs/LimiterProofs.v.beautified Proofs/LimiterProofs.required_vo: Proofs/LimiterProofs.v Base/Prelude.vo Model/Limiter.vo
 Proofs/LimiterProofs.vio: Proofs/LimiterProofs.v Base/Prelude.vio Model/Limiter.vio
 Proofs/LimiterProofs.vos Proofs/LimiterProofs.vok Proofs/LimiterProofs.required_vos: Proofs/LimiterProofs.v Base/Prelude.vos Model/Limiter.vos
@@ -31,6 +40,9 @@ Proofs/HashProofs.vos Proofs/HashProofs.vok Proofs/HashProofs.required_vos: Proo
 Proofs/StrategyProofs.vo Proofs/StrategyProofs.glob Proofs/StrategyProofs.v.beautified Proofs/StrategyProofs.required_vo: Proofs/StrategyProofs.v Base/Prelude.vo Base/Wrap.vo Model/Hash.vo Model/Strategy.vo Proofs/HashProofs.vo
 Proofs/StrategyProofs.vio: Proofs/StrategyProofs.v Base/Prelude.vio Base/Wrap.vio Model/Hash.vio Model/Strategy.vio Proofs/HashProofs.vio
 Proofs/StrategyProofs.vos Proofs/StrategyProofs.vok Proofs/StrategyProofs.required_vos: Proofs/StrategyProofs.v Base/Prelude.vos Base/Wrap.vos Model/Hash.vos Model/Strategy.vos Proofs/HashProofs.vos
+Proofs/LBProofs.vo Proofs/LBProofs.glob Proofs/LBProofs.v.beautified Proofs/LBProofs.required_vo: Proofs/LBProofs.v Base/Prelude.vo Base/Wrap.vo Base/Bytes.vo Model/Hash.vo Model/Strategy.vo Model/ClientIP.vo Model/Limiter.vo Model/Breaker.vo Model/LB.vo Proofs/StrategyProofs.vo
+Proofs/LBProofs.vio: Proofs/LBProofs.v Base/Prelude.vio Base/Wrap.vio Base/Bytes.vio Model/Hash.vio Model/Strategy.vio Model/ClientIP.vio Model/Limiter.vio Model/Breaker.vio Model/LB.vio Proofs/StrategyProofs.vio
+Proofs/LBProofs.vos Proofs/LBProofs.vok Proofs/LBProofs.required_vos: Proofs/LBProofs.v Base/Prelude.vos Base/Wrap.vos Base/Bytes.vos Model/Hash.vos Model/Strategy.vos Model/ClientIP.vos Model/Limiter.vos Model/Breaker.vos Model/LB.vos Proofs/StrategyProofs.vos
 Cases/LimiterCase.vo Cases/LimiterCase.glob Cases/LimiterCase.v.beautified Cases/LimiterCase.required_vo: Cases/LimiterCase.v Base/Prelude.vo Model/Limiter.vo
 Cases/LimiterCase.vio: Cases/LimiterCase.v Base/Prelude.vio Model/Limiter.vio
 Cases/LimiterCase.vos Cases/LimiterCase.vok Cases/LimiterCase.required_vos: Cases/LimiterCase.v Base/Prelude.vos Model/Limiter.vos
@@ -40,6 +52,9 @@ Cases/BreakerCase.vos Cases/BreakerCase.vok Cases/BreakerCase.required_vos: Case
 Cases/StrategyCase.vo Cases/StrategyCase.glob Cases/StrategyCase.v.beautified Cases/StrategyCase.required_vo: Cases/StrategyCase.v Base/Prelude.vo Base/Wrap.vo Model/Hash.vo Model/Strategy.vo
 Cases/StrategyCase.vio: Cases/StrategyCase.v Base/Prelude.vio Base/Wrap.vio Model/Hash.vio Model/Strategy.vio
 Cases/StrategyCase.vos Cases/StrategyCase.vok Cases/StrategyCase.required_vos: Cases/StrategyCase.v Base/Prelude.vos Base/Wrap.vos Model/Hash.vos Model/Strategy.vos
+Cases/LBCase.vo Cases/LBCase.glob Cases/LBCase.v.beautified Cases/LBCase.required_vo: Cases/LBCase.v Base/Prelude.vo Base/Wrap.vo Base/Bytes.vo Model/Hash.vo Model/Strategy.vo Model/ClientIP.vo Model/Limiter.vo Model/Breaker.vo Model/LB.vo
+Cases/LBCase.vio: Cases/LBCase.v Base/Prelude.vio Base/Wrap.vio Base/Bytes.vio Model/Hash.vio Model/Strategy.vio Model/ClientIP.vio Model/Limiter.vio Model/Breaker.vio Model/LB.vio
+Cases/LBCase.vos Cases/LBCase.vok Cases/LBCase.required_vos: Cases/LBCase.v Base/Prelude.vos Base/Wrap.vos Base/Bytes.vos Model/Hash.vos Model/Strategy.vos Model/ClientIP.vos Model/Limiter.vos Model/Breaker.vos Model/LB.vos
 Props/C09.vo Props/C09.glob Props/C09.v.beautified Props/C09.required_vo: Props/C09.v Base/Prelude.vo Model/Limiter.vo Proofs/LimiterProofs.vo
 Props/C09.vio: Props/C09.v Base/Prelude.vio Model/Limiter.vio Proofs/LimiterProofs.vio
 Props/C09.vos Props/C09.vok Props/C09.required_vos: Props/C09.v Base/Prelude.vos Model/Limiter.vos Proofs/LimiterProofs.vos
@@ -55,3 +70,18 @@ Props/C06.vos Props/C06.vok Props/C06.required_vos: Props/C06.v Base/Prelude.vos
 Props/C05.vo Props/C05.glob Props/C05.v.beautified Props/C05.required_vo: Props/C05.v Base/Prelude.vo Base/Wrap.vo Model/Hash.vo Model/Strategy.vo Proofs/StrategyProofs.vo
 Props/C05.vio: Props/C05.v Base/Prelude.vio Base/Wrap.vio Model/Hash.vio Model/Strategy.vio Proofs/StrategyProofs.vio
 Props/C05.vos Props/C05.vok Props/C05.required_vos: Props/C05.v Base/Prelude.vos Base/Wrap.vos Model/Hash.vos Model/Strategy.vos Proofs/StrategyProofs.vos
+Props/C13.vo Props/C13.glob Props/C13.v.beautified Props/C13.required_vo: Props/C13.v Base/Prelude.vo Model/Strategy.vo Model/LB.vo Proofs/LBProofs.vo
+Props/C13.vio: Props/C13.v Base/Prelude.vio Model/Strategy.vio Model/LB.vio Proofs/LBProofs.vio
+Props/C13.vos Props/C13.vok Props/C13.required_vos: Props/C13.v Base/Prelude.vos Model/Strategy.vos Model/LB.vos Proofs/LBProofs.vos
+Props/C11.vo Props/C11.glob Props/C11.v.beautified Props/C11.required_vo: Props/C11.v Base/Prelude.vo Model/Strategy.vo Model/LB.vo Proofs/LBProofs.vo
+Props/C11.vio: Props/C11.v Base/Prelude.vio Model/Strategy.vio Model/LB.vio Proofs/LBProofs.vio
+Props/C11.vos Props/C11.vok Props/C11.required_vos: Props/C11.v Base/Prelude.vos Model/Strategy.vos Model/LB.vos Proofs/LBProofs.vos
+Props/C02.vo Props/C02.glob Props/C02.v.beautified Props/C02.required_vo: Props/C02.v Base/Prelude.vo Base/Wrap.vo Model/Hash.vo Model/Strategy.vo Model/LB.vo Proofs/StrategyProofs.vo Proofs/LBProofs.vo
+Props/C02.vio: Props/C02.v Base/Prelude.vio Base/Wrap.vio Model/Hash.vio Model/Strategy.vio Model/LB.vio Proofs/StrategyProofs.vio Proofs/LBProofs.vio
+Props/C02.vos Props/C02.vok Props/C02.required_vos: Props/C02.v Base/Prelude.vos Base/Wrap.vos Model/Hash.vos Model/Strategy.vos Model/LB.vos Proofs/StrategyProofs.vos Proofs/LBProofs.vos
+Props/C04.vo Props/C04.glob Props/C04.v.beautified Props/C04.required_vo: Props/C04.v Base/Prelude.vo Model/Strategy.vo Model/LB.vo Proofs/LBProofs.vo
+Props/C04.vio: Props/C04.v Base/Prelude.vio Model/Strategy.vio Model/LB.vio Proofs/LBProofs.vio
+Props/C04.vos Props/C04.vok Props/C04.required_vos: Props/C04.v Base/Prelude.vos Model/Strategy.vos Model/LB.vos Proofs/LBProofs.vos
+Props/C03.vo Props/C03.glob Props/C03.v.beautified Props/C03.required_vo: Props/C03.v Base/Prelude.vo Model/Strategy.vo Model/LB.vo Proofs/LBProofs.vo
+Props/C03.vio: Props/C03.v Base/Prelude.vio Model/Strategy.vio Model/LB.vio Proofs/LBProofs.vio
+Props/C03.vos Props/C03.vok Props/C03.required_vos: Props/C03.v Base/Prelude.vos Model/Strategy.vos Model/LB.vos Proofs/LBProofs.vos
